@@ -383,3 +383,15 @@ Definition prepare_combined (e : env) (s : spl) (comb : list nat) : cerr + (list
           end
       end
   end.
+
+(* State.depth(): the number of StateArray levels of the declared output type (nest_output_type). Fields count 1,
+   or 0 when they are in the combiner as written by the user; "*" adds; "." is Python's `opr1 and opr2` on ints
+   with opr1 the right operand (0 if opr1 is 0, else opr2).  None = the assertions fail. *)
+Fixpoint depth_run (p : list tok) (comb : list nat) (st : list nat) : option nat :=
+  match p with
+  | [] => match st with [d] => Some d | _ => None end
+  | TF f :: p' => depth_run p' comb ((if memb f comb then 0 else 1) :: st)
+  | TMul :: p' => match st with o1 :: o2 :: st' => depth_run p' comb ((o1 + o2) :: st') | _ => None end
+  | TDot :: p' => match st with o1 :: o2 :: st' => depth_run p' comb ((if Nat.eqb o1 0 then 0 else o2) :: st') | _ => None end
+  end.
+Definition state_depth (s : spl) (comb : list nat) : option nat := depth_run (rpn s) comb [].
